@@ -1050,3 +1050,30 @@ def _convolve(I, a, k):
             c.conv_log = []
         c.conv_log.append({"x": xs, "w": w, "n": n, "m": m, "out": f})
     return out
+
+
+import copy as _copy
+
+
+def _deepcopy_sym(x):
+    if isinstance(x, dict):
+        r = type(x)() if type(x) is not dict else {}
+        for k, v in x.items():
+            r[k] = _deepcopy_sym(v)
+        return r
+    if isinstance(x, list):
+        return [_deepcopy_sym(v) for v in x]
+    if isinstance(x, tuple):
+        return tuple(_deepcopy_sym(v) for v in x)
+    if isinstance(x, SArr):
+        return x.copy()
+    if isinstance(x, SV) or is_z3(x):
+        return x
+    return _copy.deepcopy(x)
+
+
+@model(_copy.deepcopy)
+def _deepcopy(I, a, k):
+    if not _anysym(a):
+        return NotImplemented
+    return _deepcopy_sym(a[0])
